@@ -4,6 +4,7 @@ from .. import core
 from ..gen import hx, rng_for
 
 ENGINES = ["memkv", "badger", "tikv", "metrics-memkv", "metrics-badger", "metrics-tikv"]
+EXTRA_PROP_MODULES = [("KB.Props.C11Conflict", "KB.C11Conflict")]
 KEYS = [b"a", b"a/b", b"a-b", b"ab", b"b", b"b9", b"c", b"c\xff", b"d", b"\x57\xfbk", b"m", b"zz"]
 VALS = [b"1", b"22", b"333", b"v", b"old", b"new"]
 
@@ -170,6 +171,239 @@ def oracle(case):
     return None
 
 
+# ------------------------------------------------------------------ abandoned transactions (TiKV rollback records)
+#
+# `bbegin <id> <ops>` begins a batch (on TiKV: the transaction and its start timestamp) and `bcommit <id>` commits it
+# later; `abandon <ops>` (cfg rpcfault=abandon) is a writer whose caller goes away once its PREWRITE has reached the
+# cluster: client-go rolls it back, a ROLLBACK record newer than the open batch's start timestamp stays on its keys.
+# A rollback record is not a change of the key: the open batch's conditions are judged on the data (KB.C11Conflict).
+
+def _holds(ops, ref):
+    """conditions of a parsed batch [(kind, k, a, b)] on the dict `ref` (later ops see earlier ones); the new state"""
+    local = dict(ref)
+    for kind, k, a, b in ops:
+        if kind == "pine":
+            if k in local:
+                return None
+            local[k] = a
+        elif kind == "cas":
+            if local.get(k) != b:
+                return None
+            local[k] = a
+        elif kind == "put":
+            local[k] = a
+        elif kind == "del":
+            local.pop(k, None)
+        elif kind == "delcur":
+            if local.get(k) != a:
+                return None
+            local.pop(k, None)
+    return local
+
+
+def _parse_ops(toks, ref):
+    ops = []
+    for op in toks:
+        f = op.split(":")
+        k = unhx(f[1])
+        if f[0] == "pine" or f[0] == "put":
+            ops.append((f[0], k, unhx(f[2]), None))
+        elif f[0] == "cas":
+            ops.append(("cas", k, unhx(f[2]), unhx(f[3])))
+        elif f[0] == "del":
+            ops.append(("del", k, None, None))
+        elif f[0] == "delcur":
+            ops.append(("delcur", k, ref.get(k), None))     # the value the iterator stands on NOW
+    return ops
+
+
+def abandon_fixed_case(engine):
+    """the three conditional operations, each begun before a writer on the same key is abandoned"""
+    k, k2, other = hx(b"k"), hx(b"k2"), hx(b"other")
+    lines = ["cfg engine=%s rpcfault=abandon" % engine,
+             "batch put:%s:%s put:%s:%s" % (k, hx(b"v1"), other, hx(b"o")),
+             # compare-and-swap
+             "bbegin b1 cas:%s:%s:%s" % (k, hx(b"vB"), hx(b"v1")),
+             "abandon cas:%s:%s:%s" % (k, hx(b"vA"), hx(b"v1")),
+             "bcommit b1", "get %s" % k,
+             # compare-and-delete
+             "bbegin b2 delcur:%s" % k,
+             "abandon put:%s:%s put:%s:%s" % (other, hx(b"oA"), k, hx(b"vA")),
+             "bcommit b2", "get %s" % k, "get %s" % other,
+             # put-if-absent on an absent key
+             "bbegin b3 pine:%s:%s put:%s:%s" % (k2, hx(b"n"), other, hx(b"oB")),
+             "abandon pine:%s:%s" % (k2, hx(b"nA")),
+             "abandon put:%s:%s" % (k2, hx(b"nA2")),
+             "bcommit b3", "get %s" % k2, "get %s" % other,
+             "dump"]
+    return core.Case("engine", lines, {"engine": engine, "abandon": True})
+
+
+def slow_writer_case(engine, kind):
+    """no cancellation at all: writer A's COMMIT RPC is merely slow (`astart`: prewritten, then held). The open batch B
+    is older than A's lock: its first attempt meets a write conflict; the key has not changed. B's re-run waits for
+    TiKV's wall-clock lock ttl (3 s), rolls A back and commits; A learns at `afinish` that it was not applied."""
+    k, k2 = hx(b"k"), hx(b"k2")
+    bop, aop = {"cas": ("cas:%s:%s:%s" % (k, hx(b"vB"), hx(b"v1")), "cas:%s:%s:%s" % (k, hx(b"vA"), hx(b"v1"))),
+                "delcur": ("delcur:%s" % k, "put:%s:%s" % (k, hx(b"vA"))),
+                "pine": ("pine:%s:%s" % (k2, hx(b"n")), "pine:%s:%s" % (k2, hx(b"nA")))}[kind]
+    lines = ["cfg engine=%s rpcfault=abandon" % engine, "batch put:%s:%s" % (k, hx(b"v1")),
+             "bbegin b1 " + bop, "astart " + aop, "bcommit b1", "afinish", "get %s" % k, "get %s" % k2, "dump"]
+    return core.Case("engine", lines, {"engine": engine, "abandon": True})
+
+
+def abandon_case(seed, i, engine):
+    r = rng_for(seed, "c11abandon/%d" % i)
+    keys = r.sample([b"k", b"k2", b"a/b", b"m", b"zz", b"\x57\xfbk"], r.randint(2, 4))
+    ref = {}
+    lines = ["cfg engine=%s rpcfault=abandon" % engine]
+    init = []
+    for q in keys:
+        if r.random() < 0.6:
+            ref[q] = r.choice(VALS)
+            init.append("put:%s:%s" % (hx(q), hx(ref[q])))
+    if init:
+        lines.append("batch " + " ".join(init))
+
+    def cond_op(k, want_ok):
+        """a conditional operation on k that holds / fails on ref"""
+        if k in ref:
+            if want_ok:
+                return r.choice(["cas:%s:%s:%s" % (hx(k), hx(r.choice(VALS) + b"B"), hx(ref[k])), "delcur:%s" % hx(k)])
+            return r.choice(["cas:%s:%s:%s" % (hx(k), hx(b"x"), hx(ref[k] + b"-stale")), "pine:%s:%s" % (hx(k), hx(b"x"))])
+        if want_ok:
+            return "pine:%s:%s" % (hx(k), hx(r.choice(VALS)))
+        return "cas:%s:%s:%s" % (hx(k), hx(b"x"), hx(b"gone"))
+
+    def writer_on(k):
+        """an unconditional or holding write of k (the abandoned / the real writer)"""
+        x = r.random()
+        if k in ref and x < 0.4:
+            return "cas:%s:%s:%s" % (hx(k), hx(b"wA"), hx(ref[k]))
+        if k not in ref and x < 0.4:
+            return "pine:%s:%s" % (hx(k), hx(b"wA"))
+        if k in ref and x < 0.55:
+            return "del:%s" % hx(k)
+        return "put:%s:%s" % (hx(k), hx(r.choice(VALS) + b"w"))
+
+    for j in range(r.randint(2, 5)):
+        bkeys = r.sample(keys, r.randint(1, min(2, len(keys))))
+        want_ok = r.random() < 0.8
+        bops = [cond_op(k, want_ok or n > 0) for n, k in enumerate(bkeys)]
+        if r.random() < 0.3:
+            bops.append("put:%s:%s" % (hx(r.choice(keys)), hx(b"pB")))
+        bid = "b%d" % j
+        lines.append("bbegin %s %s" % (bid, " ".join(bops)))
+        parsed = _parse_ops(bops, ref)
+        held_at_begin = _holds(parsed, ref) is not None     # the first attempt runs on the snapshot taken here
+        for _ in range(r.choice([1, 1, 1, 2, 3])):
+            x = r.random()
+            if x < 0.7:
+                # abandoned writers on (some of) the batch's keys
+                aops = [writer_on(k) for k in r.sample(bkeys, r.randint(1, len(bkeys)))]
+                if r.random() < 0.3:
+                    aops.append("put:%s:%s" % (hx(r.choice(keys)), hx(b"pA")))
+                lines.append("abandon " + " ".join(aops))
+            elif x < 0.8:
+                # an abandoned writer whose own condition fails: it never prewrites
+                lines.append("abandon " + cond_op(r.choice(bkeys), False))
+            elif x < 0.93:
+                # a REAL change of a key of the batch while it is open
+                wop = writer_on(r.choice(bkeys))
+                lines.append("batch " + wop)
+                after = _holds(_parse_ops([wop], ref), ref)
+                ref = ref if after is None else after
+            else:
+                lines.append("get %s" % hx(r.choice(bkeys)))
+        lines.append("bcommit " + bid)
+        new = _holds(parsed, ref)
+        if new is not None and held_at_begin:
+            ref = new
+        for k in bkeys:
+            lines.append("get %s" % hx(k))
+    lines.append("dump")
+    return core.Case("engine", lines, {"engine": engine, "abandon": True})
+
+
+def abandon_oracle(case):
+    """C11 on the implementation's transcript: a batch takes effect exactly when its conditions hold. `cf` on a batch
+    whose conditions held on the data at EVERY moment between its begin and its commit is a failed condition that
+    never was (C01's last clause at the engine level)."""
+    ref = {}
+    slow = None    # operations of the writer held at its commit RPC
+    open_b = {}    # id -> [parsed ops, violated at some moment]
+    for i, (line, out) in enumerate(zip(case.lines, case.impl)):
+        t, o = line.split(), out.split()
+        if len(o) < 2 and t[0] != "cfg":
+            return ("line %d: %s -> `%s`" % (i + 1, line, out), "engine-crashed")
+        changed = False
+        if t[0] == "batch":
+            new = _holds(_parse_ops(t[1:], ref), ref)
+            if o[1] == "ok":
+                if new is None:
+                    return ("line %d: %s committed although a condition does not hold" % (i + 1, line), "condition-ignored")
+                ref, changed = new, True
+            elif new is not None:
+                return ("line %d: %s rejected (%s) although all conditions hold" % (i + 1, line, " ".join(o[1:])), "spurious-failure")
+        elif t[0] == "abandon":
+            new = _holds(_parse_ops(t[1:], ref), ref)
+            if o[1] == "ok":
+                if new is None:
+                    return ("line %d: %s committed although a condition does not hold" % (i + 1, line), "condition-ignored")
+                ref, changed = new, True
+            elif o[1] == "cf" and new is not None:
+                return ("line %d: %s answered `%s` although its conditions hold" % (i + 1, line, out), "spurious-failure")
+            elif o[-1] in ("norollback", "stuck-before-prewrite", "stuck-after-cancel", "no-rpcfault"):
+                return None     # the schedule was not produced: nothing to judge
+        elif t[0] == "astart":
+            slow = _parse_ops(t[1:], ref)
+            if o[1] != "held":
+                slow = None
+        elif t[0] == "afinish":
+            if o[1] == "ok" and slow is not None:
+                new = _holds(slow, ref)
+                if new is not None:
+                    ref, changed = new, True
+            slow = None
+        elif t[0] == "bbegin":
+            ops = _parse_ops(t[2:], ref)
+            open_b[t[1]] = [ops, _holds(ops, ref) is None]
+        elif t[0] == "bcommit":
+            if t[1] not in open_b:
+                continue    # (a shrunk script) nothing was begun under this id
+            ops, violated = open_b.pop(t[1])
+            new = _holds(ops, ref)
+            if o[1] == "ok":
+                if new is None:
+                    return ("line %d: %s committed although a condition does not hold on %s" % (i + 1, line, ref), "condition-ignored")
+                ref, changed = new, True
+            elif o[1] == "cf":
+                if new is not None and not violated:
+                    return ("line %d: batch %s (begun at line %d: `%s`) was answered 'condition failed' (%s), but its conditions held "
+                            "on the data at every moment between its begin and its commit - no key of it ever changed (the only "
+                            "other writers on them were not applied)" % (
+                                i + 1, t[1], 1 + max(j for j in range(i) if case.lines[j].startswith("bbegin " + t[1] + " ")),
+                                [l for l in case.lines if l.startswith("bbegin " + t[1] + " ")][0], out),
+                            "condition-failed-but-key-never-changed")
+            elif new is None:
+                return ("line %d: %s: a failed condition is reported as `%s`, not as a failed condition" % (i + 1, line, " ".join(o[1:])), "not-a-condition-error")
+            # `err …` on a batch whose conditions hold: allowed (nothing may have been applied: checked by get/dump)
+        elif t[0] == "get":
+            want = ref.get(unhx(t[1]))
+            got = None if o[1] == "nf" else unhx(o[1])
+            if got != want:
+                return ("line %d: %s -> %s, reference has %s" % (i + 1, line, out, want), "get-mismatch")
+        elif t[0] == "dump":
+            got = {} if o[1] == "-" else dict((unhx(x.split("=")[0]), unhx(x.split("=")[1])) for x in o[1].split(","))
+            if got != ref:
+                return ("line %d: store contents %s differ from the reference %s" % (i + 1, got, ref), "dump-mismatch")
+        if changed:
+            for b in open_b.values():
+                if _holds(b[0], ref) is None:
+                    b[1] = True
+    return None
+
+
 def snapshot_case(seed, i, engine):
     """an iterator over many keys (several scan batches of the tikv client) with a write batch landing after its
     first elements: the iteration must come from ONE snapshot (the one taken when the iterator was created)"""
@@ -236,9 +470,26 @@ def check(rep, tier, seed):
     special.append(core.Case("engine", ["cfg engine=tikv rpcfault=scan2", "load 600 6b2f 76", "iter 6b2f 6b30 0"],
                              {"engine": "tikv", "special": "scan2"}, compare=lambda op: False))
     cases += special
+    # abandoned transactions: a rollback record is not a change of the key (tikv, bare and behind the metrics wrapper)
+    ab = [abandon_fixed_case(e) for e in ("tikv", "metrics-tikv")]
+    ab += [abandon_case(seed, i, ("tikv", "metrics-tikv")[i % 2]) for i in range(2 if tier == "quick" else 400)]
+    if tier != "quick":
+        # the schedule without any cancellation (waits for TiKV's 3 s lock ttl: not in the quick tier)
+        ab += [slow_writer_case(e, kind) for e in ("tikv", "metrics-tikv") for kind in ("cas", "delcur", "pine")]
+    cases += ab
     core.run_cases(cases)
+    # first the cases whose oracle names a concrete failing input of the newest clause
+    for c in ab:
+        hit = abandon_oracle(c)
+        if hit and core.handle_oracle_hit(rep, "C11", hit[1], c, hit[0], hit[1], shrink_fn=lambda x: abandon_oracle(x) is not None):
+            return
     for c in cases:
         rep.count_case(c)
+        if c.meta.get("abandon"):
+            if abandon_oracle(c) is None and c.diff() is not None:
+                core.handle_diff(rep, "C11", "correspondence", c)
+                return
+            continue
         if c.meta.get("special"):
             hit = special_oracle(c)
             if hit and core.handle_oracle_hit(rep, "C11", hit[1], c, hit[0], hit[1]):
@@ -259,6 +510,9 @@ def check(rep, tier, seed):
         if c.diff() is not None:
             core.handle_diff(rep, "C11", "correspondence", c)
             return
-    rep.assumptions += ["non-empty values (tikv refuses empty values altogether)",
+    rep.cov["abandoned_writer_scripts"] = len(ab)
+    rep.assumptions += ["tikv: a write conflict is settled by re-running the batch at most 8 times; nine consecutive conflicts still answer the bare "
+                        "'condition failed' (KB.C11Conflict.nine_abandoned_writers_still_spurious - residual, not produced by the harness)",
+                        "non-empty values (tikv refuses empty values altogether)",
                         "sequential use of one engine handle; snapshot isolation of the third-party engines under real concurrency is assumed (differentially sampled only)",
                         "badger's DelCurrent compares versions (a rewrite with identical bytes also fails) — modelled"]
